@@ -611,6 +611,12 @@ func authenticate(inner AuthorizationHandler, h *Handler, requireAuthentication 
 				return
 			}
 		case BearerAuthentication:
+			if h.sharedSecret == "" {
+				// Without a secret anybody can sign a token.
+				h.statMap.Add(statAuthFail, 1)
+				HttpError(w, "bearer authentication is disabled, no shared secret is configured", false, http.StatusUnauthorized)
+				return
+			}
 			keyLookupFn := func(token *jwt.Token) (interface{}, error) {
 				// Check for expected signing method.
 				if _, ok := token.Method.(*jwt.SigningMethodHMAC); !ok {
